@@ -233,6 +233,9 @@ JudgeC12(e) ==
   CASE e.ev = "generate" ->
         IF ~e.accepted THEN NAv
         ELSE IF e.compiles THEN OKv
+        ELSE IF sch.ctx = "names" /\ AsIsNameClash(Devs, sch.nm, c.opts)
+             THEN Known("uncompilable:identifier_clash", "generated code does not compile: " \o sch.tag)
+        ELSE IF sch.ctx = "names" THEN Bad("a valid schema generates Go code that does not compile: " \o sch.tag)
         ELSE IF AsIsUncompilableS(Devs, sch.defs, sch.ft, sch.ctx) # ""
              THEN Known(AsIsUncompilableS(Devs, sch.defs, sch.ft, sch.ctx), "generated code does not compile")
         ELSE Bad("accepted schema generates Go code that does not compile")
